@@ -453,6 +453,13 @@ example : (run init demoCancelMid).rd = .deliver { typ := 12, id := 0, pay := 5 
     ((run init demoCancelMid).callers 1).pc = .done .ctx ∧ enabled (run init demoCancelMid) .rdDeliver = true ∧
     (run init (demoCancelMid ++ [.rdDeliver, .rdHandle])).rd = .idle := by decide
 
+/-- the end of the stream is the orderly end only after a CloseConnectionResponse to a CloseConnection **this client
+wrote**: if none was written (e.g. a `Shutdown` that gave up before its request reached the write loop), the read loop
+ends with a failure even though a CloseConnectionResponse was received, so `Connect` returns instead of waiting -/
+theorem unrequested_close_response_fails (s : St) (h : closeSent s = false) :
+    (eff s .rdEof).rd = .exited .fail ∧ (eff s .rdEof).broken = true := by
+  simp [eff, h]
+
 /-! ## `send` and the read loop as translated from the source (go2seq), for every environment -/
 
 /-- a sender that finds the client closed before its request is accepted gets an error identifying the closed client -/
